@@ -108,6 +108,10 @@ def pool(rnd):
         lambda: ([[S("mfail"), rnd.randrange(2)]], "call"),
         lambda: ([[S("progn"), [S("inc")], [S("error"), Q(S("op-fail")), 1]]], "call"),
         lambda: ([[S("if"), [S("inc")], [S("boom")], 1]], "call"),
+        # evaluations with nothing to evaluate: an empty source text, an empty nested load
+        lambda: ([], "load"),
+        lambda: ([[S("load-string"), STR("")], [S("inc")]], "load"),
+        lambda: ([[S("load-string"), SRC([])]], "load"),
         # the Go panic reached through env.FunCall (no eval of its own between the builtin and the panic)
         lambda: ([[S("inc")], [S("funcall"), S("boom")]], "load"),
         lambda: ([[S("apply"), Q(S("boom")), [S("list"), [S("inc")]]]], "load"),
